@@ -15,7 +15,7 @@ Search (independent of the model): brute-force validation of real `plan_rechunk`
   that call and must equal the plan of the same call with every default passed explicitly (under decoy defaults).
 Failure signatures: budget:bound_degree, budget:planner, plan:invalid, plan:nontermination,
   plan:raises:zero-width, plan:raises, crosswalk:<what>, history:budget, history:differs-from-explicit,
-  history:invalid, history:raises, history:nontermination.
+  history:differs-from-fresh-process, history:invalid, history:raises, history:nontermination.
 """
 from __future__ import annotations
 
@@ -356,13 +356,58 @@ def _plan_under(R, old, new, itemsize, threshold, limit, config, timeout=10.0):
         signal.signal(signal.SIGALRM, prev)
 
 
-def check_history_case(ctx, R, case):
+def fresh_plans(items):
+    """Runs in a NEW interpreter (harness.props_ext.fresh_process): each item's step is the first plan_rechunk call
+    for its (old, new, itemsize) in that process."""
+    from dask_array import _rechunk as R
+
+    seen, out = set(), []
+    for it in items:
+        old = tuple(tuple(c) for c in it["old"])
+        new = tuple(tuple(c) for c in it["new"])
+        key = (old, new, it["itemsize"])
+        if key in seen:
+            out.append(None)
+            continue
+        seen.add(key)
+        st = it["step"]
+        try:
+            out.append([[list(ax) for ax in s] for s in _plan_under(R, old, new, it["itemsize"], st["threshold"], st["limit"], st["config"])])
+        except Exception as e:  # noqa: BLE001
+            out.append("err " + type(e).__name__)
+    return out
+
+
+def compare_with_fresh(ctx, items):
+    """items: [(case, plan of the LAST step as seen in this process)]"""
+    from harness.props_ext.fresh_process import run_fresh
+
+    if not items:
+        return
+    payload = [{"old": c["old"], "new": c["new"], "itemsize": c["itemsize"], "step": c["steps"][-1]} for c, _ in items]
+    fresh = run_fresh("C15", "fresh_plans", payload)
+    n = 0
+    for (case, plan), f in zip(items, fresh):
+        if f is None or isinstance(f, str):
+            continue
+        n += 1
+        here = [[list(ax) for ax in s] for s in plan]
+        if here != f:
+            ctx.fail("history:differs-from-fresh-process", dict(case, step=len(case["steps"]) - 1, fresh_check=True, plan=here, fresh_plan=f),
+                     "the plan made after other configurations were used in this process differs from the plan the same call "
+                     "(same arguments, same configuration) makes as the first call of a new interpreter")
+    ctx.notes["history_plans_compared_with_fresh_interpreter"] = ctx.notes.get("history_plans_compared_with_fresh_interpreter", 0) + n
+
+
+def check_history_case(ctx, R, case, collect=None):
     """One (old, new, itemsize) planned under each configuration of case["steps"] in turn, in this process.
     A step = {"threshold": arg or None, "limit": arg or None, "config": {all three keys}}.  Oracles per step:
     (a) brute force: every step of the plan is a chunking of the shape, the last is `new`, no intermediate block is
         larger than max(limit in force / itemsize, largest old, largest new);
     (b) the plan equals the plan of the same call with threshold and block_size_limit passed explicitly while the
-        configuration holds decoy defaults (a default read from the configuration must be read at every call)."""
+        configuration holds decoy defaults (a default read from the configuration must be read at every call);
+    (c) (batched by the caller, `collect`) the plan of the last step equals the plan the same call makes as the first
+        call of a new interpreter."""
     old = tuple(tuple(c) for c in case["old"])
     new = tuple(tuple(c) for c in case["new"])
     shape = tuple(sum(c) for c in old)
@@ -401,6 +446,8 @@ def check_history_case(ctx, R, case):
             ok = False
             ctx.fail("history:differs-from-explicit", dict(here, plan=plan, explicit=ref),
                      "the plan under configured defaults differs from the plan with the same values passed explicitly")
+    if collect is not None and ok and len(case["steps"]) > 1:
+        collect.append((case, plans[-1]))
     distinct = len({repr(p) for p in plans})
     ctx.count(("history", len(shape), len(case["steps"]), min(distinct, 3), case.get("vary"),
                any(st["limit"] for st in case["steps"]), any(st["threshold"] for st in case["steps"]), max(map(len, plans)) > 1))
@@ -469,19 +516,21 @@ def rand_history_case(rng, maxaxis):
 def history_search(ctx, R):
     rng = ctx.rng
     n = bad = 0
+    collect = []
     # the documented shape of the problem, both orders, deterministic
     for order in (["128MiB", "1KiB", "16KiB", "1KiB", "128MiB"], ["1KiB", "128MiB", "1KiB"]):
         for o, nw in ((((1,) * 100, (100,)), ((100,), (1,) * 100)), (((100,), (1,) * 100), ((1,) * 100, (100,)))):
             case = {"kind": "plan-history", "old": [list(c) for c in o], "new": [list(c) for c in nw], "itemsize": 8, "vary": "limit",
                     "steps": [{"threshold": None, "limit": None, "config": {CFG_LIMIT: v, CFG_THRESHOLD: 4, CFG_DEGREE: 10}} for v in order]}
             n += 1
-            bad += not check_history_case(ctx, R, case)
-    for i in range(ctx.scale(2500, 30000)):
+            bad += not check_history_case(ctx, R, case, collect)
+    for i in range(ctx.scale(1800, 30000)):
         case = rand_history_case(rng, rng.choice([6, 12, 24]))
         n += 1
-        bad += not check_history_case(ctx, R, case)
+        bad += not check_history_case(ctx, R, case, collect)
         if i % 500 == 0:
             ctx.sample({"case": case})
+    compare_with_fresh(ctx, collect)
     ctx.notes["history_cases"] = n
     ctx.notes["history_cases_failing"] = bad
 
@@ -678,7 +727,10 @@ def replay_case(ctx, R, rp):
             if pairs:
                 ctx.correspond("plan_rechunk(recorded oracles)", pairs)
         elif kind == "plan-history":
-            check_history_case(ctx, R, {k: case[k] for k in ("kind", "old", "new", "itemsize", "steps", "vary") if k in case})
+            collect = []
+            check_history_case(ctx, R, {k: case[k] for k in ("kind", "old", "new", "itemsize", "steps", "vary") if k in case}, collect)
+            if case.get("fresh_check"):
+                compare_with_fresh(ctx, collect)
         elif kind == "crosswalk":
             brute_crosswalk(ctx, R, tuple(case["old"]), tuple(case["new"]))
         elif kind == "helper":
